@@ -14,7 +14,9 @@ Driver for the virtual-world propagation model (C15).  State = the input files b
   eq   <name> <cells>                     -> ok      a row of the equipment file (all cells after the first column)
   src  <component> <id> <repairable> <cells> -> ok   a row of the sources file
   build [i0,i1,…]                         -> the world built from the picked rows of the sites file,
-                                             or `reject:<reasons>` where the code exits
+                                             or `reject:<reasons>` where the code exits / raises;
+                                             per component `<id>{<rep rate>|<non-rep rate>}:<sources>`, the rate
+                                             shown when a source of that kind without own rate exists, else `*`
   resolve <global> [l1,l2,…]              -> value in effect after the chain (`resolve`)
   round <num> <den>                       -> Python round (half to even)
   strip <column>                          -> component type of an equipment column
